@@ -39,6 +39,14 @@ def _stack(spec, rng):
     if kind == "pragma":
         d = {"pragma": {"patterns": {"single": ["^\\s*--\\s+mytool\\s+\\w+\\s*$"], "open": ["^\\s*--\\s+mytool\\s+off\\s*$"], "close": ["^\\s*--\\s+mytool\\s+on\\s*$"]}}}
         return "jcl", [(d, "json")]
+    if kind == "pragma_reordered":
+        # the documented default patterns, with the pattern types listed in another order
+        from vsg import config as vsgconfig
+
+        pats = vsgconfig.dPragmas
+        order = spec["order"]
+        d = {"pragma": {"patterns": {k: list(pats[k]) for k in order}}}
+        return "jcl", [(d, "yaml_keep_order")]
     if kind == "yesno":
         # YAML 1.1 reads unquoted yes/no as booleans
         db = cfgpool.rule_db()
@@ -56,10 +64,12 @@ def _write(d, stack):
 
     paths = []
     for i, (cfg, fmt) in enumerate(stack):
-        p = os.path.join(d, "s%d.%s" % (i, fmt))
+        p = os.path.join(d, "s%d.%s" % (i, "yaml" if fmt.startswith("yaml") else fmt))
         with open(p, "w") as fh:
             if fmt == "json":
                 json.dump(cfg, fh)
+            elif fmt == "yaml_keep_order":
+                yaml.safe_dump(cfg, fh, sort_keys=False)
             else:
                 yaml.safe_dump(cfg, fh)
         paths.append(p)
@@ -195,10 +205,26 @@ def _cases(tier, seed):
     nrc = 10 if tier == "quick" else 60
     specs += [{"kind": "rc", "idx": i} for i in harness.sample(rng, range(200), nrc)]
     specs += [{"kind": "severity"}, {"kind": "severity", "style": None}, {"kind": "indent"}, {"kind": "pragma"}, {"kind": "yesno"}, {"kind": "yesno"}]
+    pragma_files = [f for f in corpus if "pragma" in f.lower()]
+    for f in corpus:
+        if len(pragma_files) > 60:
+            break
+        try:
+            with open(os.path.join(vsgapi.REPO, f), errors="replace") as fh:
+                t = fh.read()
+            if "translate_off" in t or "vhdl_comp_off" in t or "RTL_SYNTHESIS" in t:
+                pragma_files.append(f)
+        except OSError:
+            pass
+    pragma_files = sorted(set(pragma_files))
+    pspecs = [{"kind": "pragma_reordered", "order": o} for o in (["single", "open", "close"], ["close", "single", "open"], ["single", "close", "open"])]
     cases = []
     nf = 6 if tier == "quick" else 25
     for s in specs:
         cases.append({"cfg": s, "files": rng.sample(small, nf), "salt": rng.randrange(1 << 20)})
+    for s in pspecs + [{"kind": "pragma"}]:
+        cases.append({"cfg": s, "files": rng.sample(pragma_files, min(len(pragma_files), nf + 4)) if pragma_files else rng.sample(small, nf), "salt": rng.randrange(1 << 20)})
+    specs = specs + pspecs
     ids = sorted(cfgpool.rule_db())
     for i in range(12 if tier == "quick" else 120):
         cases.append({"cfg": rng.choice(specs), "rc_rule": rng.choice(ids), "files": [], "salt": rng.randrange(1 << 20)})
